@@ -27,7 +27,12 @@ EXPLANATION = (
     "Precondition.__iter__ when the operands are obtained by iterating the condition). C18.pairs: every component "
     "of each (in)equality pair is looked up in the map (no old name reaches the new set), the pairs come from the same field, "
     "nothing is filtered, pairs are not removed and inserted one by one, and the new set replaces the old one; a nested condition "
-    "receives change_signature itself (same valuation with 'the operand is a Precondition')."
+    "receives change_signature itself (same valuation with 'the operand is a Precondition'). Before the analysis the flattened "
+    "functions are re-spelled in plain forms (getattr / setattr with literal names, operator.attrgetter / itemgetter / methodcaller / "
+    "getitem, functools.partial, lambdas and bound methods bound once to a name, map / filter / starmap, loops and comprehensions "
+    "over constant tables with the literal tests decided, next(.. for .. in TABLE if ..) dispatch, exhausted generators, "
+    "chain.from_iterable of a display), and a value that is put into a slot of a tuple / NamedTuple / dataclass record or into an "
+    "intermediate container and selected again is identified with itself (a set in between counts as loss of order)."
 )
 UNDECIDED = "behavioural equivalence of the renamed action (applicability and successors for every argument tuple)"
 
@@ -152,6 +157,9 @@ def _judge_signature_entries(ents, mp: str) -> Tuple[Optional[str], dict]:
         return "no key of the new signature is looked up in the renaming map", sample
     for k in keys_plain:
         if not (len(k) == 2 and k[0] == f"param:{mp}" and k[1] in U.LOOKUPS):
+            lost = [s for s in k[2:] if s.startswith(U.ORDER_LOST)]
+            if len(k) > 2 and k[0] == f"param:{mp}" and k[1] in U.LOOKUPS and lost:
+                return f"the renamed entries pass through a container that does not keep their order ({lost[0]})", sample
             if k[0] == f"param:{mp}":
                 return f"the new names are taken from the renaming map by iteration ({'/'.join(k[1:])}), so their order is the map's, not the signature's", sample
             return f"a key of the new signature is not map[old] ({'/'.join(k)})", sample
@@ -259,6 +267,12 @@ def rule_fields(repo: Repo) -> RuleResult:
             ok = any(_from_map(v.content(x, SIG), mp) for w in rep.inserts for x in (w.key, w.value) if x is not None)
         else:
             ok = _passes_map_to(v, mp, ("self", f"attr:{fld}"), every=True)
+        if not ok and fld != "signature":
+            # a renaming call on something reached through an attribute name that is computed at run time: the field cannot be told
+            dyn = [c for c in _rename_calls(v, mp) if any(x[:2] == ("self", "arg0:getattr") for x in v.raw_trace(c.func.value))]
+            if dyn:
+                raise AnalysisError(f"{f.qn}: {unparse(dyn[0], 60)} is called on getattr(self, <name that is not a literal of a constant table>): "
+                                    f"cannot tell which fields are renamed")
         if ok:
             r.ok({"field": fld, "visited": True})
         elif fld != "signature" and _passes_map_to(v, mp, ("self", f"attr:{fld}")):
@@ -343,6 +357,8 @@ def _kind_atom(repo: Repo, f: FuncInfo):
             return [n for e_ in t.elts for n in names(e_, depth)]
         if isinstance(t, ast.Attribute):
             return [t.attr]
+        if isinstance(t, ast.BinOp) and isinstance(t.op, ast.Add):
+            return names(t.left, depth) + names(t.right, depth)          # CLASSES + (Other,)
         if isinstance(t, ast.Constant) and isinstance(t.value, str):
             return [t.value]
         if isinstance(t, ast.Name) and depth < 4:
@@ -393,7 +409,7 @@ def _scenario(repo: Repo, G: L.Guards, kind: str) -> dict:
 def _iter_delivers(repo: Repo, kind: str) -> Set[str]:
     """what iterating a Precondition delivers for an operand of class `kind`: 'itself' (the operand is yielded) and / or 'inner'
     (the items of iterating the operand are yielded)"""
-    it = L.fn(repo, "Precondition.__iter__")
+    it = U.anchor(repo, "Precondition.__iter__")
     p = L.prov(repo, it)
     G = L.Guards(it, _kind_atom(repo, it))
     val = _scenario(repo, G, kind)
